@@ -109,7 +109,7 @@ PROPS["C06"] = dict(
          "BitVector / SparseVector / RLVector of <= N bits. For each x: bytes written == 8*size_in_elements == size_in_bytes; load consumes exactly those bytes, equals x, re-serializes identically and answers the query sets of C01-C04; "
          "also through 1/3/7/8/9-byte short-read readers and 1/3/7-byte short-write sinks; size_by_params for Raw/IntVector over boundary (capacity, width) sets. Every ordered pair (thorough: every triple over 24 values) "
          "written back to back loads in sequence with the reader ending exactly at the end. Non-trivial = more than one element; distinct by hashed descriptor / descriptor tuple.",
-    bounds={"quick": "150-value catalogue, N=8, 22 500 pairs", "thorough": "extended catalogue (all widths, all byte lengths, multi-superblock vectors), N=12, all pairs, 46 656 triples"},
+    bounds={"quick": "150-value catalogue, N=8, 22 500 pairs", "thorough": "extended catalogue (all widths, all byte lengths, multi-superblock vectors), N=18, all pairs, 46 656 triples"},
     assumptions=[HOOK_ASSUMPTION, MODEL_ASSUMPTION],
 )
 MANIFEST_TEXT["C06"] = dict(engine="E-input", design_ref="DESIGN.md §4 C06",
@@ -120,10 +120,10 @@ MANIFEST_TEXT["C06"] = dict(engine="E-input", design_ref="DESIGN.md §4 C06",
 PROPS["C17"] = dict(
     driver="c17", builds=["rel", "native", "dbg"], level="exploration",
     rule="E-input: write_int/read_int at every (offset 0..=191, width 1..=64) on a 4-word array x value alphabet x background alphabet (whole array compared bit by bit with a reference; single-word and straddling branch); "
-         "bits::select for EVERY rank < popcount over every word with <= 3 (thorough 4) set bits, every byte value at every byte position over four background fills, their complements, shifted runs and the seed pattern "
+         "bits::select for EVERY rank < popcount over every word with <= 3 (thorough 5) set bits, every byte value at every byte position over four background fills, their complements, shifted runs and the seed pattern "
          "(covers every entry of the in-byte table and every prefix-sum case); low_set/high_set (+unchecked) for all n in 0..=64; bit_len, reverse_low (all widths), rounding helpers, split/bit_offset, div_round_up over boundary sets "
          "inside their documented domains, compared with u128 arithmetic. Run in builds without BMI2 (portable table), with BMI2 (PDEP) and with overflow checks. Non-trivial: non-zero background or straddling field; every (word, rank) pair.",
-    bounds={"quick": "5 values x 4 backgrounds; 94 449 select words", "thorough": "133 values x 6 backgrounds; 1 364 078 select words"},
+    bounds={"quick": "8 values x 4 backgrounds; 94 449 select words", "thorough": "136 values x 6 backgrounds; 16 612 202 select words (every word with <= 5 set bits), 531 588 815 (word, rank) pairs"},
     assumptions=[HOOK_ASSUMPTION, "select on words outside the structured families is not explored (the function is branch-free; the families cover every table entry and byte position)"],
 )
 MANIFEST_TEXT["C17"] = dict(engine="E-input", design_ref="DESIGN.md §4 C17",
@@ -138,12 +138,12 @@ PROPS["C16"] = dict(
          "the largest that fits, one more than fits, usize::MAX}, set_len below/at/above the length. After every call: accepted/refused exactly as the reference says; a refused call leaves every observable (len, next_index, counts, fullness, and the vector a clone converts to) unchanged; "
          "len/next_index/is_full/is_empty/count_ones/count_zeros exact; conversion of a clone succeeds iff allowed and yields a vector that answers get/rank/select/predecessor/successor at every index like the accepted positions / merged runs (also after completing a clone with the smallest admissible indices). "
          "States deduplicated on the builder's Debug rendering; distinct = distinct renderings per BFS.",
-    bounds={"quick": "depth 4", "thorough": "depth 6"},
+    bounds={"quick": "depth 4", "thorough": "depth 7"},
     assumptions=[HOOK_ASSUMPTION, "after an extend that panics on an invalid element, how many of the valid elements before it were accepted is not specified; any prefix is admitted"],
 )
 MANIFEST_TEXT["C16"] = dict(engine="E-hist", design_ref="DESIGN.md §4 C16",
     technique="explicit-state breadth-first exploration of builder call sequences on the real builders, reference model of accepted calls, side-effect oracle on the Debug rendering",
-    level_text="All sequences of valid and invalid calls up to depth 4/6 over 60 sparse parameter sets and the run-length builder; every transition executed on the real builder; every reached state converted and compared with the accepted positions.",
+    level_text="All sequences of valid and invalid calls up to depth 4/7 over 60 sparse parameter sets and the run-length builder; every transition executed on the real builder; every reached state converted and compared with the accepted positions.",
     level_note="Histories longer than the bound and parameters outside the alphabet are not explored.")
 
 PROPS["C14"] = dict(
@@ -202,7 +202,7 @@ PROPS["C18"] = dict(
          "(writable if mutable), as_ref() equals the file content and len() = size/8; missing / non-multiple-of-8 files give Err and leave nothing mapped; an empty file gives Err or a valid empty map; after Drop no page of the dropped range is still mapped to the file and other live maps are intact; "
          "every map sits between two PROT_NONE guard pages placed by the harness (one is placed first so that the library's mapping lands directly below it) and both guards must survive the drop, so an unmap that is one page too long or too short is seen deterministically; with no live "
          "handle no test file is mapped; the process never holds more open descriptors to a test file than it has live maps of it (so a dropped map keeps nothing of the file open); a write is visible through every live map of the file and in the file after the map is dropped. A state is a history; all histories are distinct by construction.",
-    bounds={"quick": "depth 1..3, 12 files: 19 604 histories", "thorough": "depth 1..4 over 10 files + depth 5 over 7 files: 1 509 086 histories"},
+    bounds={"quick": "depth 1..3, 12 files: 19 604 histories", "thorough": "depth 1..4 over 12 files + depth 5 over 7 files: 1 752 170 histories"},
     require_counters={},
     timeout={"quick": 900, "thorough": 4 * 3600},
     assumptions=[HOOK_ASSUMPTION, "the address space is observed through /proc/self/maps (Linux)", "the only OS refusal provoked is the zero-length mapping"],
@@ -219,12 +219,12 @@ PROPS["C09"] = dict(
          "select_zero_iter, predecessor, successor; Iterator::nth / nth_back(k) for k in A(remaining) on every iterator kind after 0, 1 and 2 consumed items from the front and after 1 and 2 items consumed from the back (result, exact size hint afterwards, the next items); wavelet matrices over small "
          "alphabets with A(.) x (present, absent, outside-the-alphabet values incl. u64::MAX) in every position of rank/select/select_iter/inverse_select/predecessor/successor/contains, and WMCore map_down/map_down_with/map_up_with over all "
          "(index, value) and map_down_with_two_positions over all (index, index, value) - the pair variant must answer like two single queries; constructors with widths {0,1,13,64,65,2^20,MAX}, SparseBuilder::new with ones > universe, RLBuilder::try_set with start+len overflowing. No call may panic. Distinct by hashed structure.",
-    bounds={"quick": "N=6; WM scopes (1,6) (2,4) (3,3) (4,2)", "thorough": "N=10; WM scopes (1,10) (2,6) (3,4) (4,3)"},
+    bounds={"quick": "N=6; WM scopes (1,6) (2,4) (3,3) (4,2)", "thorough": "N=16; WM scopes (1,10) (2,6) (3,4) (4,3)"},
     assumptions=[HOOK_ASSUMPTION, MODEL_ASSUMPTION, "documented 'may panic' cases (get(i >= len), with_len whose len*width overflows) are not checked; WMCore with values >= 2^width is only required not to panic"],
 )
 MANIFEST_TEXT["C09"] = dict(engine="E-input", design_ref="DESIGN.md §4 C09",
     technique="bounded exhaustive input enumeration on the real code with the extreme-argument set A(.) in every argument position, against reference models, in three build configurations",
-    level_text="All structures up to 6/8 bits plus multi-block representatives x every argument position x A(.), including Iterator::nth/nth_back beyond the remainder and the core mapping for any (index, value); decided with overflow checks on (no panic) and off (same answers).",
+    level_text="All structures up to 6/16 bits plus multi-block representatives x every argument position x A(.), including Iterator::nth/nth_back beyond the remainder and the core mapping for any (index, value); decided with overflow checks on (no panic) and off (same answers).",
     level_note="Trusts the reference models; larger structures are represented by 9 instances only.")
 
 PROPS["C10"] = dict(
@@ -264,12 +264,12 @@ PROPS["C11"] = dict(
          "the target type's own builder produces from the same bits, and serialize to identical bytes. Builder decompositions: every run list of <= 3 runs of length <= R (gaps 0/1/2) x EVERY composition of each run into adjacent try_set pieces "
          "(down to bit at a time) x {no set_len, set_len(current length) before every run, set_len(next start) before every run, set_len(current length) before every PIECE, two refused try_set calls (an overflowing run behind a gap, a run before the current length) before every piece} x tail {0, 2}: the RLVector must be the canonical one. "
          "Huge universes: SparseVector <-> RLVector chains (From and copy_bit_vec) over lengths up to usize::MAX with runs at 2^60-scale positions and runs ending exactly at usize::MAX. Non-trivial = has set and unset bits / any decomposition.",
-    bounds={"quick": "N=10, R=4", "thorough": "N=14, R=6"},
+    bounds={"quick": "N=10, R=4", "thorough": "N=18, R=6"},
     assumptions=[HOOK_ASSUMPTION, MODEL_ASSUMPTION, "BitVector construction routes from a raw vector / bool iterator are compared in C01"],
 )
 MANIFEST_TEXT["C11"] = dict(engine="E-input", design_ref="DESIGN.md §4 C11",
     technique="bounded exhaustive enumeration of bit sequences x all conversion chains up to length 3 x all builder call decompositions, with a canonical-form oracle (== and identical bytes)",
-    level_text="All 159 conversion chains on every bit sequence up to 10/12 bits and on multi-block representatives; every decomposition of small run lists into builder calls incl. interleaved set_len.",
+    level_text="All 159 conversion chains on every bit sequence up to 10/18 bits and on multi-block representatives; every decomposition of small run lists into builder calls incl. interleaved set_len.",
     level_note="Chains longer than 3 and larger inputs are not explored.")
 
 PROPS["C13"] = dict(
@@ -296,13 +296,13 @@ PROPS["C19"] = dict(
          "reaches the full subset equals the fully enabled original. Composites: SparseVector files at every admissible low width and WaveletMatrix / WMCore files are written by the independent codec with EVERY subset of the support structures in the embedded "
          "bitvectors (none, each one, all), and must load - also wrapped as Option<...> in front of a sentinel - and answer all queries; with no supports or all supports they must equal the built value. skip_option over [optional, sentinel] for every catalogue value through readers of chunk size 1/3/7/8/9/4095/unbounded must leave the reader exactly at the sentinel; "
          "absent_option writes absent_option_size() elements. Distinct = states + files + (value, chunk) pairs.",
-    bounds={"quick": "N=7 (255+7 bitvectors x 16 states), sparse files for all sets <= 6 bits x all widths, WM scopes (1,6) (2,4) (3,3) (4,2)", "thorough": "N=11, sparse <= 10 bits, WM scopes (1,8) (2,5) (3,4) (4,3), extended catalogue"},
+    bounds={"quick": "N=7 (255+7 bitvectors x 16 states), sparse files for all sets <= 6 bits x all widths, WM scopes (1,6) (2,4) (3,3) (4,2)", "thorough": "N=16, sparse <= 14 bits, WM scopes (1,8) (2,5) (3,4) (4,3), extended catalogue"},
     require_counters={"quick": {"sparse_files_at_the_library_width": 10}, "thorough": {"sparse_files_at_the_library_width": 10}},
     assumptions=[HOOK_ASSUMPTION, MODEL_ASSUMPTION, "the independent codec in harness/vcore/src/spec.rs (written from SERIALIZATION.md) produces the support-free files"],
 )
 MANIFEST_TEXT["C19"] = dict(engine="E-hist", design_ref="DESIGN.md §4 C19",
     technique="explicit-state exploration to a fixpoint of the (support subset, built|loaded) graph on the real bitvector; support-free composite files produced by an independent codec; skip_option under short reads",
-    level_text="All 16 states and 80 transitions per bitvector for every bitvector up to 7/9 bits and multi-regime representatives; support-free sparse / wavelet-matrix files at every admissible parameter; skip_option for every catalogue value x 7 reader chunk sizes.",
+    level_text="All 16 states and 80 transitions per bitvector for every bitvector up to 7/16 bits and multi-regime representatives; support-free sparse / wavelet-matrix files at every admissible parameter; skip_option for every catalogue value x 7 reader chunk sizes.",
     level_note="The state graph is finite and explored completely; the input set is bounded as stated.")
 
 PROPS["C07"] = dict(
@@ -313,7 +313,7 @@ PROPS["C07"] = dict(
          "stored ones = actual, exactly one bucket per universe slice, w >= 1, 4-bit units with whole runs per 64-unit block, zero padding only in closed blocks and none in the final block, maximal runs, samples per block at minimal width, data width 4, "
          "wavelet-matrix width = bit_len(max), first[v] = first position or len, minimal width of first). Direction 2: files encoded by the codec with every admissible writer choice - all support structures absent, EVERY low width 1..bit_len(n)+1 for "
          "sparse vectors, every sample width from minimal to 64 for run-length vectors - and every subset of support structures in embedded bitvectors - must load and answer the full query sets (and equal the built value where the document determines the content). Greedy block packing is counted, not required. Distinct by hashed case.",
-    bounds={"quick": "N=10 (direction 1), 8 (direction 2); WM scopes (1,8) (2,5) (3,3) (4,2)", "thorough": "N=14 / 11; WM scopes (1,9) (2,6) (3,4) (4,3); all 64 sample widths for every vector"},
+    bounds={"quick": "N=10 (direction 1), 8 (direction 2); WM scopes (1,8) (2,5) (3,3) (4,2)", "thorough": "N=20 / 16; WM scopes (1,9) (2,6) (3,4) (4,3); all 64 sample widths for every vector"},
     require_counters={"quick": {"direction1_library_written_files": 1000, "direction2_document_written_files": 1000}, "thorough": {"direction1_library_written_files": 1000, "direction2_document_written_files": 1000}},
     assumptions=[HOOK_ASSUMPTION, MODEL_ASSUMPTION, "my reading of SERIALIZATION.md as implemented in spec.rs; rank/select support structures are implementation-dependent per the document and only checked for whole elements"],
 )
